@@ -14,6 +14,14 @@ OFFSET_POOL = [(0, 0), (1, 0), (-1, 0), (5, 30), (-3, -30), (0, -30),
                (47, 1), (-50, -1)]
 
 
+# every small whole-hour offset and the sub-hour ones of either sign: for
+# sweeps over all ordered pairs (source, destination)
+OFFSET_GRID = [(h, 0) for h in range(-4, 5)] + [
+    (0, 1), (0, -1), (0, 2), (0, -2), (0, 30), (0, -30), (0, 59), (0, -59),
+    (5, 30), (5, 45), (-3, -30), (-9, -30), (-9, 0), (5, 0), (12, 0),
+    (-12, 0)]
+
+
 def rand_year(rng, lo=-9999, hi=12000):
     if rng.random() < 0.55:
         y = rng.choice(YEAR_POOL)
